@@ -560,7 +560,9 @@ struct Delivery {
     consumed: usize,
 }
 
-fn deliver(parser: u64, msg: &Msg, class: u64, cut: Cut, endless_mode: bool) -> Delivery {
+/// `split = Some(j)`: the first `j` bytes are available at once, the rest only arrives when the
+/// parser has consumed them and is waiting (one chunk boundary exactly at offset `j`).
+fn deliver(parser: u64, msg: &Msg, class: u64, cut: Cut, endless_mode: bool, split: Option<usize>) -> Delivery {
     let mut cfg = class_cfg(class);
     match cut {
         Cut::None => {}
@@ -568,13 +570,22 @@ fn deliver(parser: u64, msg: &Msg, class: u64, cut: Cut, endless_mode: bool) -> 
         Cut::Reset(k) => cfg.reset_after = Some(k),
     }
     let (writer_end, reader_end, to_reader, _back) = duplex(cfg, StreamCfg::default());
-    to_reader.push(&msg.bytes);
-    if !endless_mode {
+    let first = split.unwrap_or(msg.bytes.len()).min(msg.bytes.len());
+    to_reader.push(&msg.bytes[..first]);
+    let mut rest_pending = split.is_some();
+    if !endless_mode && !rest_pending {
         to_reader.close();
     }
     let mut fed = msg.bytes.len();
     let feeder = || {
-        if endless_mode && fed < ENDLESS_CAP {
+        if rest_pending {
+            rest_pending = false;
+            to_reader.push(&msg.bytes[first..]);
+            if !endless_mode {
+                to_reader.close();
+            }
+            true
+        } else if endless_mode && fed < ENDLESS_CAP {
             to_reader.push(&msg.bytes);
             fed += msg.bytes.len();
             true
@@ -582,7 +593,7 @@ fn deliver(parser: u64, msg: &Msg, class: u64, cut: Cut, endless_mode: bool) -> 
             false
         }
     };
-    let what = || format!("{} parser={} class={} cut={cut:?}", msg.name, PARSER_NAMES[parser as usize], CLASS_NAMES[class as usize]);
+    let what = || format!("{} parser={} class={} cut={cut:?} split={split:?}", msg.name, PARSER_NAMES[parser as usize], CLASS_NAMES[class as usize]);
     let driven: Driven<Outcome> = match parser {
         0 => match drive(Nts::parse_record(reader_end), feeder) {
             Driven::Done(Ok(v)) => Driven::Done(Outcome::Accepted(Value::Rec(v))),
@@ -682,13 +693,45 @@ fn parse_whole(parser: u64, bytes: &[u8]) -> Result<Value, String> {
 }
 
 /// accepted value -> bytes -> value' -> bytes': value == value' and bytes == bytes'
-fn check_round_trip(what: &str, parser: u64, v: &Value) {
+fn check_round_trip(what: &str, parser: u64, class: u64, v: &Value) {
     match serialize_value(v) {
         Err(e) => {
             check!("C30", "c30-accepted-value-reserialises", false, "{what}: accepted value does not re-serialise ({e}): {}", short(v));
         }
         Ok(b2) => {
             check!("C30", "c30-accepted-value-reserialises", true, "");
+            // the re-parse also under fragmented delivery (this run's chunking class; 1-byte reads
+            // for the unfragmented classes): all bytes arrive, only the read boundaries differ
+            {
+                let frag_class = if class == 0 || class == 9 { 1 } else { class };
+                let tmp = Msg { name: format!("reserialised({what})"), bytes: b2.clone(), endless: false };
+                let d = deliver(parser, &tmp, frag_class, Cut::None, false, None);
+                match d.outcome {
+                    Some(Outcome::Accepted(v2)) => {
+                        check!(
+                            "C30",
+                            "c30-reserialised-bytes-parse-to-same-value",
+                            v2 == *v,
+                            "{what}: re-serialised bytes delivered as '{}' parse to a different value: first {} second {}",
+                            CLASS_NAMES[frag_class as usize],
+                            short(v),
+                            short(&v2)
+                        );
+                    }
+                    Some(Outcome::Rejected(e)) => {
+                        check!(
+                            "C30",
+                            "c30-reserialised-bytes-parse-to-same-value",
+                            false,
+                            "{what}: re-serialised bytes (len {}) delivered completely but fragmented as '{}' are rejected ({e}): {}",
+                            b2.len(),
+                            CLASS_NAMES[frag_class as usize],
+                            short(v)
+                        );
+                    }
+                    None => {}
+                }
+            }
             match parse_whole(parser, &b2) {
                 Err(e) => {
                     check!(
@@ -837,10 +880,45 @@ pub fn run() {
     let mut first_accept: Option<usize> = None;
     let mut max_consumed = 0usize;
     let mut ops = 0u64;
-    let mut one = |cut: Cut, endless_mode: bool, hist: &mut std::collections::BTreeMap<String, u64>| {
-        let d = deliver(parser, &msg, class, cut, endless_mode);
+    // the verdict is a function of the byte stream: what arrives, not how it is chunked. The
+    // reference is the unfragmented parse of the same bytes from a slice.
+    let verdict_matches = |cut: Cut, split: Option<usize>, got: &Option<Outcome>| {
+        let Some(got) = got else { return };
+        let reference = match cut {
+            Cut::None => parse_whole(parser, &msg.bytes),
+            Cut::Eof(k) => parse_whole(parser, &msg.bytes[..k.min(msg.bytes.len())]),
+            Cut::Reset(_) => return,
+        };
+        let same = match (got, &reference) {
+            (Outcome::Accepted(a), Ok(b)) => a == b,
+            (Outcome::Rejected(a), Err(b)) => a == b,
+            _ => false,
+        };
+        check!(
+            "C30",
+            "c30-verdict-independent-of-chunking",
+            same,
+            "{} parser={} class={} cut={cut:?} split={split:?}: delivered through the stream the verdict is {}, the unfragmented parse of the same bytes gives {}",
+            msg.name,
+            PARSER_NAMES[parser as usize],
+            CLASS_NAMES[class as usize],
+            match got {
+                Outcome::Accepted(v) => format!("Ok({})", short(v)),
+                Outcome::Rejected(e) => format!("Err({e})"),
+            },
+            match &reference {
+                Ok(v) => format!("Ok({})", short(v)),
+                Err(e) => format!("Err({e})"),
+            }
+        );
+    };
+    let mut one = |cut: Cut, endless_mode: bool, split: Option<usize>, hist: &mut std::collections::BTreeMap<String, u64>| {
+        let d = deliver(parser, &msg, class, cut, endless_mode, split);
         ops += 1;
         max_consumed = max_consumed.max(d.consumed);
+        if !endless_mode {
+            verdict_matches(cut, split, &d.outcome);
+        }
         match d.outcome {
             Some(Outcome::Accepted(v)) => {
                 *hist.entry("accepted".to_string()).or_insert(0) += 1;
@@ -851,7 +929,7 @@ pub fn run() {
                 }
                 if last_checked.as_ref() != Some(&v) {
                     let what = format!("{} parser={} class={} cut={cut:?}", msg.name, PARSER_NAMES[parser as usize], CLASS_NAMES[class as usize]);
-                    check_round_trip(&what, parser, &v);
+                    check_round_trip(&what, parser, class, &v);
                     last_checked = Some(v);
                 }
             }
@@ -864,13 +942,25 @@ pub fn run() {
         if k < len {
             fault(if class == 9 { "stream-reset-at-k" } else { "stream-eof-at-k-enumerated" });
         }
-        one(cut, false, &mut hist);
+        one(cut, false, None, &mut hist);
         if simkit::has_violation("C30") {
             break;
         }
     }
     // uncut: closed after the last byte, or (endless streams) refilled on demand up to 64 KiB
-    one(Cut::None, msg.endless, &mut hist);
+    one(Cut::None, msg.endless, None, &mut hist);
+    // uncut with exactly one chunk boundary, at EVERY offset (the bytes before it are available
+    // at once, the rest arrives only when the parser waits for it); done once per (message,
+    // parser), in the unfragmented class
+    if class == 0 && !msg.endless && len <= 2048 {
+        for j in 0..len {
+            fault("stream-single-chunk-boundary-at-j");
+            one(Cut::None, false, Some(j), &mut hist);
+            if simkit::has_violation("C30") {
+                break;
+            }
+        }
+    }
     if hist.contains_key("accepted") {
         probe("c30-some-delivery-accepted");
     }
